@@ -17,6 +17,7 @@ Proof.
   - unfold unsubscribe_middle. apply Inv_enqueue_middle; [|exact I]. intros. eapply enc_unsubscribe_fits; eassumption.
   - now apply Inv_rt.
   - now apply Inv_rt.
+  - now apply Inv_rt.
   - apply Inv_ob; [exact I|]. apply OInv_arm_replay. apply I.
   - apply Inv_ob; [exact I|]. apply OInv_compact. apply I.
   - now apply Inv_connack.
